@@ -301,7 +301,14 @@ class System:
         del impl.ext.log[:]
         if not check:
             return problems
-        # split the log into per-test blocks (startTest .. stopTest); run-level events ignored
+        # the wrapped result's run bracket encloses every test it is told about (incomplete tests
+        # are reported BEFORE its stopTestRun: a TextTestResult prints its summary there)
+        names = [e[0] for e in log]
+        if "stopTestRun" in names and names.index("stopTestRun") != len(names) - 1:
+            problems.append(("run-bracket", "wrapped result received %r after its stopTestRun" % (names[names.index("stopTestRun") + 1 :],)))
+        if "startTestRun" in names and names.index("startTestRun") != 0:
+            problems.append(("run-bracket", "wrapped result received %r before its startTestRun" % (names[: names.index("startTestRun")],)))
+        # split the log into per-test blocks (startTest .. stopTest)
         blocks = []
         cur = None
         pre = []
